@@ -73,6 +73,9 @@ META["rule"] += (
 META["rule"] += (
     " " + "Added after the seventh round: the node weights are handed over as the caller's own array (refilled afterwards in 40 %), as float32 when exact.")
 
+META["rule"] += (
+    " " + 'Added after the eighth round: one sparse component of 258 / 259 nodes for the random-walk betweenness (moderate weights) before and after a split.')
+
 # typical weights: chosen so that the corrected degree k/tw - 1 (a factor of
 # the corrected clustering denominators) cannot vanish exactly for integer
 # or split-integer node weights - at such points the measure is 0/0
@@ -542,6 +545,25 @@ def run(ctx):
             for v in (n0 - 1, int(r.integers(0, n0))):
                 one_split(ctx, Network, A, w, None, False, v, 0.3, cid, meas,
                           crosscheck=False)
+    # ---- the random-walk betweenness just beyond 256 nodes (one sparse
+    #      component: its leaves have exactly 256 non-neighbours, nodes of
+    #      degree 2 have as many after the split) ---------------------------
+    for j, n0 in enumerate((258, 259) if ctx.thorough else (258,)):
+        cid = f"walk8bit:{n0}"
+        if not ctx.mine(j + 3) or not ctx.want(cid):
+            continue
+        r = ctx.rng("walk8bit", n0)
+        A = G.random_connected(r, n0, n0, extra_p=0.0)
+        extra = np.triu(r.random((n0, n0)) < 1.0 / n0, 1)
+        A = ((A + extra + extra.T) > 0).astype(np.int8)
+        np.fill_diagonal(A, 0)
+        w = np.round(r.uniform(0.5, 2.0, n0) * 16) / 16
+        meas = [x for x in NET if "newman" in x[0]]
+        ctx.count("random_walk_betweenness_beyond_256_nodes")
+        with ctx.guard(900):
+            one_split(ctx, Network, A, w, None, False,
+                      int(r.integers(0, n0)), 0.3, cid, meas,
+                      crosscheck=False)
     # ---- random, iterated splits --------------------------------------
     k = 0
     cap = 30000 if ctx.thorough else 2400
